@@ -54,7 +54,7 @@ TInit == /\ l = 1 /\ ms = MSInit /\ b = [t |-> 0] /\ lastline = 0 /\ second = FA
 (* C10: what the monitors find in the SECOND rendering (of the parsed message) is reported under C10 *)
 (* (well-formedness and content only: attributes the parser does not carry over - a declared media type, *)
 (* descriptions, the exact layering - are not part of C10)                                               *)
-R2Keep == {"C01_LeafCount", "C01_ContentEqual", "C01_ReaderProblems", "C01_AllMultipartsClosed", "C01_BoundaryNesting",
+R2Keep == {"C01_LeafCount", "C01_ContentEqual", "C01_FileNames", "C01_ReaderProblems", "C01_AllMultipartsClosed", "C01_BoundaryNesting",
            "C01_BoundaryDeclared", "C01_BoundaryUnique", "C01_EpilogueEmpty", "C01_NothingAfterEnd", "C02_TopFields",
            "C02_PartFields", "C02_HeaderSyntax", "C02_NoControlInHeader", "C02_HeaderSectionEnds", "C02_SingleOccurrence"}
 Tag(S) == IF second THEN {"C10_R2_" \o p : p \in S \cap R2Keep} ELSE S
@@ -105,6 +105,8 @@ TreeFlags(e) ==
   \cup F("C01_StructureFromLines", SameStructure(expected, byLines, n))
   \cup F("C01_LeafCount", Len(lvs) = n)
   \cup F("C01_LeafAttributes", Len(lvs) = n => \A i \in 1..n : LeafOK(lvs[i], b.slots[i]))
+  \* (the file names alone: they are carried over by the EML parser, so they are judged in a re-rendering too - C10)
+  \cup F("C01_FileNames", Len(lvs) = n => \A i \in 1..n : b.slots[i].kind # "part" => lvs[i].fname = b.slots[i].fname)
   \cup F("C02_PartValues", Len(lvs) = n => \A i \in 1..n : LeafValuesOK(lvs[i], b.slots[i]))
   \cup F("C01_ReaderProblems", e.problems = <<>> \/ e.problems = [x \in {} |-> 0])
 
